@@ -26,6 +26,9 @@ for name in ("conelp", "coneqp", "lp", "qp", "socp", "sdp", "cpl", "cp", "gp"):
             try:
                 r = orig(*a, **k)
                 print("[%s] -> %s it=%s" % (name, r.get("status"), r.get("iterations")))
+                if os.environ.get("ONECASE_DUMP") and r.get("status") == os.environ.get("ONECASE_DUMP_STATUS", "unknown"):
+                    import pickle
+                    pickle.dump((name, a, {kk: vv for kk, vv in k.items() if not callable(vv)}), open(os.environ["ONECASE_DUMP"], "wb"))
                 return r
             except Exception:
                 print("[%s] raised:" % name); traceback.print_exc(); raise
